@@ -244,6 +244,28 @@ func (c *Conn) Unblock() {
 	c.mu.Unlock()
 }
 
+// ReadError makes the parked Read return one transient error and waits until
+// the reader has taken it and is parked in Read again (false: the reader did
+// not come back within d).
+func (c *Conn) ReadError(d time.Duration) bool {
+	c.mu.Lock()
+	defer c.mu.Unlock()
+	if c.closed {
+		return true
+	}
+	c.readErrs++
+	c.cond.Broadcast()
+	deadline := time.Now().Add(d)
+	for (c.readErrs > 0 || !c.waiting) && !c.closed {
+		if time.Now().After(deadline) {
+			return false
+		}
+		waitCond(c.cond, 20*time.Millisecond)
+	}
+
+	return true
+}
+
 // Snapshot returns copies of the write log and the close count.
 func (c *Conn) Snapshot() ([]WriteRec, int) {
 	c.mu.Lock()
